@@ -43,6 +43,7 @@ def run(rep: Report, tier: str) -> None:
 	rule_h(rep, idx)
 	rule_i(rep, idx)
 	rule_j(rep, idx)
+	rule_k(rep, idx)
 
 
 def rule_a(rep: Report, idx: SourceIndex) -> None:
@@ -650,3 +651,33 @@ def rule_j(rep: Report, idx: SourceIndex) -> None:
 def mangle_name(f, callee: str) -> str:
 	"""`self.__under(...)` inside class C calls C.__under: the FuncInfo name is the plain source name, so only the leading underscores matter"""
 	return callee
+
+
+def rule_k(rep: Report, idx: SourceIndex) -> None:
+	"""`pluck(T, p) is e` for every (p, e) of full_pathfy(T), for EVERY tree handed to the finder: the lookup classes are handed the tree with each call
+	(ASTFinder) or are built per tree (Nodes, EntryCache), so anything they remember in an attribute that is not keyed by the tree itself answers for
+	another tree with the same paths — a second module, the next revision of the same module. The inventory of remembered state is C04's; the entries of
+	the classes defined in the files this property is anchored in are obligations here too."""
+	from checks import c04
+	r = rep.rule('C10/lookup-classes-keep-no-tree-independent-state', 'the classes of syntax/ast/finder.py, path.py, cache.py, syntax/node/query.py, node/resolver.py and ast/resolver.py hold no container / memo outside the reviewed table (shared with C04/instance-state-inventory)', floor=1)
+	files = (FINDER, PATH, 'rogw/tranp/syntax/ast/cache.py', 'rogw/tranp/syntax/node/query.py', 'rogw/tranp/syntax/node/resolver.py', 'rogw/tranp/syntax/ast/resolver.py')
+	owners = set()
+	for rel in files:
+		try:
+			owners |= {c.name for c in idx.mod(rel).classes.values()}
+		except Exception:
+			continue
+	scratch = Report('C04', rep.tier)
+	c04.rule_g(scratch, idx)
+	n_ = 0
+	for rule in scratch.rules:
+		for o in rule.obligations:
+			if o.key.split('.')[0] not in owners:
+				continue
+			n_ += 1
+			if o.status == 'violated':
+				r.violate(o.key, (o.file, o.line), o.message + ' — a path names an entry only within ONE tree: a lookup remembered under the path (or under the root tag, which every module shares) returns the entry of the tree it was first asked about, so pluck(T2, p) is an entry of T1 and exists(T2, p) answers for T1', o.fragment)
+			else:
+				r.ok(o.key, (o.file, o.line))
+	if n_ == 0:
+		r.ok('no-container-attributes', None, message=f'the lookup classes {sorted(owners)} hold no container attribute')
